@@ -110,22 +110,22 @@ func profiles() []profile {
 
 	lfs := profile{name: "lfs", noRewrite: []string{"u.dat", "dir/d.bin"}}
 	lfs.trees[0] = treeDef{
-		lit(".gitattributes", "*.dat"+lfsAttr), ptr("t.dat", 3000, 31), raw("u.dat", 1500, 32), raw("a.bin", 2000, 33),
+		lit(".gitattributes", "*.dat"+lfsAttr), ptr("t.dat", 3000, 31), raw("u.dat", 1500, 32).exe(), raw("a.bin", 2000, 33),
 		ptr("p.bin", 1800, 34), lit("dir/.gitattributes", "*.bin"+lfsAttr+"k.dat -filter\n"), raw("dir/d.bin", 1100, 35),
 		ptr("dir/q.bin", 1400, 36), raw("dir/k.dat", 900, 37), lit("e.dat", ""), txt("c.txt", 200, 38),
 	}
 	lfs.trees[1] = treeDef{ // root .gitattributes removed, nothing else but t.dat changes
-		ptr("t.dat", 3100, 39), raw("u.dat", 1500, 32), raw("a.bin", 2000, 33),
+		ptr("t.dat", 3100, 39), raw("u.dat", 1500, 32).exe(), raw("a.bin", 2000, 33),
 		ptr("p.bin", 1800, 34), lit("dir/.gitattributes", "*.bin"+lfsAttr+"k.dat -filter\n"), raw("dir/d.bin", 1100, 35),
 		ptr("dir/q.bin", 1400, 36), raw("dir/k.dat", 900, 37), lit("e.dat", ""), txt("c.txt", 200, 38),
 	}
 	lfs.trees[2] = treeDef{ // *.bin becomes tracked too, nested file removed, u.dat properly tracked now
-		lit(".gitattributes", "*.dat"+lfsAttr+"*.bin"+lfsAttr), ptr("t.dat", 3000, 31), ptr("u.dat", 1500, 32), raw("a.bin", 2000, 33),
+		lit(".gitattributes", "*.dat"+lfsAttr+"*.bin"+lfsAttr), ptr("t.dat", 3000, 31), ptr("u.dat", 1500, 32).exe(), raw("a.bin", 2000, 33),
 		ptr("p.bin", 1800, 34), raw("dir/d.bin", 1100, 35),
 		ptr("dir/q.bin", 1400, 36), raw("dir/k.dat", 900, 37), lit("e.dat", ""), txt("c.txt", 230, 40),
 	}
 	lfs.trees[3] = treeDef{ // as T0 but t.dat committed raw by mistake, shared object at two paths
-		lit(".gitattributes", "*.dat"+lfsAttr), raw("t.dat", 3000, 31), raw("u.dat", 1500, 32), raw("a.bin", 2000, 33),
+		lit(".gitattributes", "*.dat"+lfsAttr), raw("t.dat", 3000, 31), raw("u.dat", 1500, 32).exe(), raw("a.bin", 2000, 33),
 		ptr("p.bin", 1800, 34), lit("dir/.gitattributes", "*.bin"+lfsAttr+"k.dat -filter\n"), raw("dir/d.bin", 1100, 35),
 		ptr("dir/q.bin", 1400, 36), raw("dir/k.dat", 900, 37), ptr("dir/p2.bin", 1800, 34), txt("c.txt", 230, 40),
 	}
